@@ -22,10 +22,12 @@ ACTIONS = ['CreateSeries', 'BeginDrop', 'DropStep', 'DropMeasStep', 'EndDrop', '
            'Reopen', 'Crash']
 
 
-def cfg(consts, invariants, view=True):
+def cfg(consts, invariants, view=True, constraint=None):
     lines = ['SPECIFICATION Spec', 'CONSTANTS']
     lines += [f'  {k} = {v}' for k, v in consts.items()]
     lines.append('INVARIANTS ' + invariants)
+    if constraint:
+        lines.append('CONSTRAINT ' + constraint)
     if view:
         lines.append('VIEW View')
     lines.append('CHECK_DEADLOCK FALSE')
@@ -96,7 +98,11 @@ def run(ctx):
         g = ctx.tlc(SPEC, cfg(gen, 'Emit', view=False), timeout=1700, tag='gen-' + mode, workers=2, heap='3g')
         s_ = ctx.tlc(SPEC, cfg(sim, 'Emit', view=False), timeout=1700, tag='sim-' + mode, workers=2, heap='3g',
                      simulate={'num': n_sim}, depth=60)
-        return g, s_
+        # the fixed, always replayed histories (Scripts of the spec)
+        scr = dict(gen, MaxOps=7, MaxCreate=3, WithCrash='FALSE')
+        sc = ctx.tlc(SPEC, cfg(scr, 'EmitScript', view=False, constraint='FollowsScript'), timeout=900, tag='script-' + mode,
+                     workers=2, heap='2g')
+        return g, s_, sc
     gen_f = {mode: pool.submit(run_gen, mode, sfd) for mode, sfd in (('keep', 'FALSE'), ('delete', 'TRUE'))}
     binary = ctx.go_build('tsi')     # meanwhile
     for name, f in (('keep', f_keep), ('delete', f_del)):
@@ -111,9 +117,18 @@ def run(ctx):
         leads[name] = {'violated_on_model': lr.violated, 'states': lr.distinct}
     ctx.extra_cov['model_leads'] = leads
     cases = []
+    scripted = []
     totals = {}
     for mode, fut in gen_f.items():
-        g, s = fut.result()
+        g, s, sc = fut.result()
+        if sc.timed_out or not sc.ok:
+            raise vlib.Inconclusive('scripted generation run failed: ' + sc.stdout[-800:])
+        hscr = histories(sc)
+        if len(hscr) < 6:
+            raise vlib.Inconclusive(f'only {len(hscr)} scripted histories generated')
+        totals[mode + '_scripted'] = len(hscr)
+        for h in hscr:
+            scripted.append({'mode': 'index', 'tab': tab, 'steps': h, 'keepSfile': mode == 'keep', 'gen': 'script'})
         if g.timed_out or not g.ok:
             raise vlib.Inconclusive('generation run failed: ' + g.stdout[-800:])
         hs = histories(g)
@@ -158,6 +173,14 @@ def run(ctx):
             continue
         units += u
         chosen.append(d)
+    # scripted histories: never sampled; every one under max log sizes that force the roll after every operation / entry
+    fixed = []
+    for c in scripted:
+        for max_log, auto, cache in ((1, False, 0), (1, True, 100), (9, False, 100), (9, True, 0), (18, False, 0)):
+            fixed.append(dict(c, maxLog=max_log, parts=1, cacheSize=cache, variant=len(fixed) % 4, manifest=True,
+                              autoCompact=auto, sweep=2 if c['keepSfile'] else 0))
+    chosen = fixed + chosen
+    ctx.extra_cov['scripted_cases_always_replayed'] = len(fixed)
     ctx.exhaustive = False
     ctx.extra_cov['cases_generated'] = len(out)
     ctx.extra_cov['cases_replayed'] = len(chosen)
